@@ -57,6 +57,9 @@ def run(ctx):
                     ctx.violation("adjusted-illposed|" + tag, "constraints do not resolve the datum defect but an adjustment is reported", replay={"gkf": lst[0][3]["gkf"]})
             elif cls != "adjusted":
                 ctx.violation("refused-wellposed|" + tag, "constraints resolve the defect but the network is not adjusted (%s)\n%s" % (cls, lst[0][1].out[-500:]), replay={"gkf": lst[0][3]["gkf"]})
+        if e["k"] == "Isolate" and cls != "adjusted":
+            # the rest of the network is determined: dropping X must leave an adjustable network
+            ctx.violation("refused-wellposed|" + tag, "a point with a single determining element makes the whole network unadjustable (%s)\n%s" % (cls, lst[0][1].out[-500:]), replay={"gkf": lst[0][3]["gkf"]})
         # same results for all algorithms
         if cls == "adjusted":
             base = session.project(lst[0][1].res, lst[0][2])
